@@ -536,9 +536,21 @@ template <class K> struct World {
                 if (!e.empty()) viol(r, "identity", e);
             }
             if (r.cls == XC_SINGULAR && cfg.chk_identity) {
-                std::vector<cx> Ld, Ud; dense_LU<K>(&s.L, &s.U, n, n, Ld, Ud);
-                long k = r.info - 1;
-                if (k >= 0 && k < n && Ud[(size_t)k + (size_t)k * n] != cx(0)) viol(r, "singular-pivot", "info=" + std::to_string(r.info) + " but U(info,info) is not exactly zero");
+                // the reported zero pivot is real: U(info,info) is exactly zero - read straight from the supernode's storage, and only
+                // when that storage has a diagonal position for the column at all (after a zero pivot a supernode can have fewer
+                // rows than columns, see KF1; then there is nothing to look at)
+                const SCformat *Ls = (const SCformat *)s.L.Store; long k = r.info - 1;
+                if (k >= 0 && k < n) {
+                    int sn = Ls->col_to_sup[k]; if (sn >= 0 && sn <= Ls->nsuper) {
+                        int fsupc = Ls->sup_to_col[sn]; long nsupr = Ls->rowind_colptr[fsupc + 1] - Ls->rowind_colptr[fsupc];
+                        if (k - fsupc < nsupr && Ls->nzval_colptr[k + 1] - Ls->nzval_colptr[k] == nsupr) {
+                            S d = ((const S *)Ls->nzval)[Ls->nzval_colptr[k] + (k - fsupc)];
+                            long double dm = std::fabs((long double)ScalarOps<S>::re(d)) + std::fabs((long double)ScalarOps<S>::im(d));
+                            if (ovf || !(dm == dm)) r.overflow_skipped = true; // overflow (inf, then NaN) upstream of this column is a legitimate explanation
+                            else if (dm != 0) viol(r, "singular-pivot", "info=" + std::to_string(r.info) + " but U(info,info) is not exactly zero");
+                        }
+                    }
+                }
             }
             if (!ovf && solved && cfg.chk_residual) {
                 std::vector<cx> &Ld = Ld0, &Ud = Ud0;
